@@ -180,8 +180,8 @@ PROPS = {
         "assumptions": ["A-RSA: the parser delivers N > 0 and 0 < E < 2^63 exactly as encoded (checked on every kit certificate)"],
     },
     "C18": {
-        "proofs": ["ZlProofs.Props.C18"],
-        "corr": ["tld"],
+        "proofs": ["ZlProofs.Props.C18", "ZlProofs.Props.C18Gen"],
+        "corr": ["tld", "tldgen"],
         "search": [],
         "obligations": [ob_tld],
         "trusted_base": TB_COMMON,
@@ -288,8 +288,8 @@ CLAIMS = {
             "text": "Each of the thirteen predicates is proved equivalent to its arithmetic meaning for all N, e; modSmallFactor_iff uses kernel-checked coverage of 2..751 by the regenerated prime table; fermat_sound (p*q = n) and fermat_complete for all n and round counts. Tie: kit certificates with chosen (N, e) at every boundary through the real framework, factorisations compared.",
             "note": "A-RSA (parser delivers N, E as encoded, E < 2^63). Mathlib tactics ring/linarith/nlinarith."},
     "C18": {"technique": "Lean 4 kernel evaluation of the regenerated 1.5k-row table + proofs of the lookup/period specification + date-boundary correspondence",
-            "text": "table_wellformed (every row; keys strictly sorted), hasValidTLD_spec, isInTLDMap_spec, valid_no_silent_error, tld_lint_spec for all ASCII domains and instants. Tie: util.HasValidTLD/IsInTLDMap at every entry's delegation and removal instant +-1s in three time zones, the lint on re-dated certificates.",
-            "note": "ASCII domains; time.Parse modelled by parseDate."},
+            "text": "table_wellformed (every row; keys strictly sorted), hasValidTLD_spec, isInTLDMap_spec, valid_no_silent_error, tld_lint_spec for all ASCII domains and instants. Regeneration clause: generate_rows_ok / generate_none_iff / merged_names_nodup / generate_lowercase show that every table zlint-gtld-update can write, for any two feeds, has well-formed dates and distinct keys. Tie: util.HasValidTLD/IsInTLDMap at every entry's delegation and removal instant +-1s in three time zones, the lint on re-dated certificates; the built generator (validateGTLDs, delegatedGTLDs, renderGTLDMap over an in-memory transport) vs the model on generated feeds with every malformed date shape.",
+            "note": "ASCII domains; time.Parse modelled by parseDate (validated on valid and malformed strings). A-FEED: gTLD feed names are lower-case. The generator accepting removal < delegation was a genuine defect, repaired by fix: 352d290."},
     "C19": {"technique": "Lean 4 proofs over CIDR arithmetic on Nat + kernel evaluation over the regenerated network table + edge correspondence",
             "text": "contains_reserved_intersects, intersects_mono, host_network, mapped_eq_host/net, special_blocks_reserved hold for all addresses and canonical CIDR networks, given table facts (table_covers_nonGU, special_blocks_covered) decided by the kernel over the regenerated table. Tie: IsIANAReserved/IntersectsIANAReserved/IsGlobalUnicast/Contains on block edges, all super- and sub-prefixes, 4-byte and mapped forms.",
             "note": "A-NET (net.IP/IPNet as modelled); canonical networks with contiguous masks."},
